@@ -248,7 +248,10 @@ def run_xh(item, budget: float) -> dict:
 
     _api.MODEL_ERROR_LOG.clear()
     analysis, stats, wall = analyze(conditions, budget)
-    model_errors = list(dict.fromkeys(_api.MODEL_ERROR_LOG))[:5]
+    try:
+        model_errors = list(dict.fromkeys(_api.MODEL_ERROR_LOG))[:5]
+    except BaseException:  # noqa: BLE001  (a symbolic value slipped into the log: cannot be hashed out here)
+        model_errors = ["<stub left its model; message not renderable>"]
     out["paths"] = stats.get("num_paths", 0)
     out["confirmed_paths"] = analysis.num_confirmed_paths
     out["solver_wall_s"] = round(wall, 3)
